@@ -35,25 +35,55 @@ impl MdkMemoryStorage {
     /// Content digest of one stored rollback snapshot (wall-clock fields left out): the group record,
     /// relays, exporter-secret epochs and every MLS blob it would restore. Used in search keys so that
     /// two states that differ only in what a later rollback would restore are not merged.
-    pub fn verif_snapshot_digest(&self, group_id: &mdk_storage_traits::GroupId, name: &str) -> Option<String> {
+    pub fn verif_snapshot_digest(
+        &self,
+        group_id: &mdk_storage_traits::GroupId,
+        name: &str,
+    ) -> Option<String> {
         let snaps = self.group_snapshots.read();
         let s = snaps.get(&(group_id.clone(), name.to_string()))?;
         let rec = s.group.as_ref().map(|g| {
             format!(
                 "{:?}|{}|{}|{:?}|{}|{:?}|{:?}|{:?}",
-                g.nostr_group_id, g.name, g.description, g.admin_pubkeys, g.epoch, g.state, g.last_message_id, g.last_message_at
+                g.nostr_group_id,
+                g.name,
+                g.description,
+                g.admin_pubkeys,
+                g.epoch,
+                g.state,
+                g.last_message_id,
+                g.last_message_at
             )
         });
-        let relays: Vec<String> = s.group_relays.iter().map(|r| r.relay_url.to_string()).collect();
+        let relays: Vec<String> = s
+            .group_relays
+            .iter()
+            .map(|r| r.relay_url.to_string())
+            .collect();
         let mut secrets: Vec<u64> = s.group_exporter_secrets.keys().copied().collect();
         secrets.sort();
-        let mut mls: Vec<String> = s.mls_group_data.iter().map(|((_, t), v)| format!("{t:?}:{v:?}")).collect();
+        let mut mls: Vec<String> = s
+            .mls_group_data
+            .iter()
+            .map(|((_, t), v)| format!("{t:?}:{v:?}"))
+            .collect();
         mls.sort();
-        let mut props: Vec<String> = s.mls_proposals.iter().map(|(k, v)| format!("{k:?}:{v:?}")).collect();
+        let mut props: Vec<String> = s
+            .mls_proposals
+            .iter()
+            .map(|(k, v)| format!("{k:?}:{v:?}"))
+            .collect();
         props.sort();
-        let mut keys: Vec<String> = s.mls_epoch_key_pairs.iter().map(|(k, v)| format!("{k:?}:{v:?}")).collect();
+        let mut keys: Vec<String> = s
+            .mls_epoch_key_pairs
+            .iter()
+            .map(|(k, v)| format!("{k:?}:{v:?}"))
+            .collect();
         keys.sort();
-        Some(format!("{rec:?}|{relays:?}|{secrets:?}|{mls:?}|{props:?}|{:?}|{keys:?}", s.mls_own_leaf_nodes))
+        Some(format!(
+            "{rec:?}|{relays:?}|{secrets:?}|{mls:?}|{props:?}|{:?}|{keys:?}",
+            s.mls_own_leaf_nodes
+        ))
     }
 
     /// Deterministic dump of every map of the store (sorted), for state fingerprints.
